@@ -160,6 +160,11 @@ FUNCS = {
     "log10": c_log10,
     "sqrt": c_sqrt,
     "abs": lambda x: abs(float(x)),
+    # double-precision specific names of the same intrinsics
+    "dlog": c_log,
+    "dlog10": c_log10,
+    "dsqrt": c_sqrt,
+    "dabs": lambda x: abs(float(x)),
 }
 
 
